@@ -304,7 +304,7 @@ pub open spec fn spec_tile_offsets(tm: &Tilemap) -> (int, int) {
 # ------------------------------------------------------------------------------------------------
 UD_FRAME = ("        final(self).layers@.len() == old(self).layers@.len(),\n")
 UNITS["userdata"] = {
-    "prelude_sections": ["errors", "rgba_only", "reader", "vec_extra"],
+    "prelude_sections": ["errors", "rgba_only", "reader", "vec_extra", "btreemap_shim"],
     "items": [
         {"kind": "struct", "file": "user_data", "name": "UserData", "keep": None, "rewrites": [("image::Rgba<u8>", "Rgba<u8>")]},
         {"kind": "struct", "file": "layer", "name": "LayerData", "keep": ["user_data"]},
@@ -321,15 +321,15 @@ UNITS["userdata"] = {
 impl CelsData {
     /// the cel stored at (frame, layer), None if there is none (or the indices are outside the table)
     pub open spec fn at(&self, f: int, l: int) -> Option<RawCel> {
-        if 0 <= f < self.data.len() && 0 <= l < self.data[f].len() { self.data[f][l] } else { None }
+        if 0 <= f < self.data.len() && 0 <= l <= 65535 && self.data[f]@.contains_key(l as u16) { Some(self.data[f]@[l as u16]) } else { None }
     }
 }
 """},
         {"kind": "fn", "file": "cel", "name": "new", "key": "CelsData::new", "impl_of": "CelsData", "impl_filter": r"impl<P>\s+CelsData<P>", "impl_header": "CelsData", "ret": "r",
-         "closures": [{"after": ".resize_with(num_frames as usize,", "params": "", "ret": "row: Vec<Option<RawCel>>", "ensures": "row@.len() == 1 && row@[0] is None"}],
+         "closures": [{"after": ".resize_with(num_frames as usize,", "params": "", "ret": "row: BTreeMap<u16, RawCel>", "ensures": "row@ == Map::<u16, RawCel>::empty()"}],
          "ensures": ("        r.num_frames == num_frames, r.data@.len() == num_frames as int,\n"
-                     "        // one row per frame, each with a single empty slot\n"
-                     "        forall|f: int| 0 <= f < num_frames ==> (#[trigger] r.data@[f])@.len() == 1 && r.data@[f]@[0] is None,\n"
+                     "        // one empty row per frame\n"
+                     "        forall|f: int| 0 <= f < num_frames ==> (#[trigger] r.data@[f])@ == Map::<u16, RawCel>::empty(),\n"
                      "        forall|f: int, l: int| r.at(f, l) is None,")},
         {"kind": "fn", "file": "cel", "name": "check_valid_frame_id", "impl_of": "CelsData", "impl_filter": r"impl<P>\s+CelsData<P>", "impl_header": "CelsData", "ret": "r",
          "rules": ["R1", "R6", "R11"],
@@ -337,10 +337,7 @@ impl CelsData {
         {"kind": "fn", "file": "cel", "name": "add_cel", "key": "CelsData::add_cel", "impl_of": "CelsData", "impl_filter": r"impl<P>\s+CelsData<P>", "impl_header": "CelsData", "ret": "r",
          "rules": ["R1", "R6", "R11"], "sig_rewrites": [("RawCel<P>", "RawCel")],
          # closure contract spliced onto the real closure (annotation only)
-         "closures": [{"after": ".resize_with(min_layers as usize,", "params": "", "ret": "e: Option<RawCel>", "ensures": "e is None"}],
          "ensures": ("        final(self).data.len() == old(self).data.len(), final(self).num_frames == old(self).num_frames,\n"
-                     "        // rows never grow beyond the 65536 layer indices a cel can name (CelsData::validate relies on it)\n"
-                     "        (forall|f: int| 0 <= f < old(self).data.len() ==> (#[trigger] old(self).data[f]).len() <= 65536) ==> (forall|f: int| 0 <= f < final(self).data.len() ==> (#[trigger] final(self).data[f]).len() <= 65536),\n"
                      "        r is Ok <==> ((frame_id as int) < old(self).data.len() && old(self).at(frame_id as int, cel.data.layer_index as int) is None),\n"
                      "        r is Ok ==> final(self).at(frame_id as int, cel.data.layer_index as int) == Some(cel)\n"
                      "            && forall|f: int, l: int| !(f == frame_id && l == cel.data.layer_index) ==> #[trigger] final(self).at(f, l) == old(self).at(f, l),\n"
@@ -438,7 +435,6 @@ pub open spec fn attach_post(o: &ParseInfo, n: &ParseInfo, ctx: UserDataContext,
          "ensures": ("        // the parser starts with one slot per frame (default duration, one empty cel row) and nothing else\n"
                      "        r.frame_times@.len() == num_frames as int, forall|f: int| 0 <= f < num_frames ==> #[trigger] r.frame_times@[f] == default_frame_time,\n"
                      "        r.framedata.num_frames == num_frames as u32, r.framedata.data@.len() == num_frames as int, forall|f: int, l: int| r.framedata.at(f, l) is None,\n"
-                     "        forall|f: int| 0 <= f < num_frames ==> (#[trigger] r.framedata.data@[f])@.len() == 1,\n"
                      "        r.layers@.len() == 0, r.slices@.len() == 0, r.tags is None, r.palette is None, r.color_profile is None, r.sprite_user_data is None, r.user_data_context is None,")},
         {"kind": "fn", "file": "parse", "name": "add_layer", "impl_of": "ParseInfo",
          "requires": "        old(self).layers@.len() < u32::MAX,",
@@ -625,7 +621,7 @@ pub open spec fn frame_chunks(d: Seq<u8>, o: int) -> Seq<Chunk> {
 # The three access paths to a cel and the cel accessors (C19, C06 accessors, C01 optional lookups)
 # ------------------------------------------------------------------------------------------------
 UNITS["routes"] = {
-    "prelude_sections": ["rgba_only"],
+    "prelude_sections": ["rgba_only", "btreemap_shim"],
     "items": [
         {"kind": "struct", "file": "user_data", "name": "UserData", "keep": None, "rewrites": [("image::Rgba<u8>", "Rgba<u8>")]},
         {"kind": "struct", "file": "cel", "name": "CelId", "keep": None, "attrs": "#[derive(Clone, Copy)]\n"},
@@ -641,7 +637,7 @@ UNITS["routes"] = {
         {"kind": "verbatim", "text": """
 impl CelsData {
     pub open spec fn at(&self, f: int, l: int) -> Option<RawCel> {
-        if 0 <= f < self.data.len() && 0 <= l < self.data[f].len() { self.data[f][l] } else { None }
+        if 0 <= f < self.data.len() && 0 <= l <= 65535 && self.data[f]@.contains_key(l as u16) { Some(self.data[f]@[l as u16]) } else { None }
     }
 }
 /// what loading establishes: one row per frame, frame and layer counts fit the 16-bit cel coordinates
@@ -1418,7 +1414,7 @@ def _compose_items():
 _TM, _RAW, _VIS = _compose_items()
 CANVAS = "old(image).w() <= 65535, old(image).h() <= 65535,"
 UNITS["compose"] = {
-    "prelude_sections": ["arch", "image", "tilemap_spec", "tilemap_raster_spec", "compose_shims", "raster_spec", "layer_flags", "forest", "compose_spec"],
+    "prelude_sections": ["arch", "image", "tilemap_spec", "tilemap_raster_spec", "compose_shims", "raster_spec", "layer_flags", "forest", "btreemap_shim", "compose_spec"],
     "items": _TM + _RAW + [
         {"kind": "enum", "file": "layer", "name": "LayerType", "attrs": "#[derive(Clone, Copy)]\n"},
         {"kind": "struct", "file": "layer", "name": "LayerData", "keep": ["flags", "child_level", "blend_mode", "opacity", "layer_type"]},
@@ -1492,7 +1488,7 @@ UNITS["compose"] = {
                        "                fc_matches(it.snapshot@.remaining(), cels_of(self.framedata.data[frame as int]@)),\n"
                        "                forall|k: int| 0 <= k < cels_of(self.framedata.data[frame as int]@).len() ==> {\n"
                        "                    let e = #[trigger] cels_of(self.framedata.data[frame as int]@)[k];\n"
-                       "                    0 <= (e.0 as int) < self.framedata.data[frame as int]@.len() && self.framedata.data[frame as int]@[e.0 as int] == Some(e.1)\n"
+                       "                    0 <= (e.0 as int) <= 65535 && self.framedata.data[frame as int]@.contains_key(e.0 as u16) && self.framedata.data[frame as int]@[e.0 as u16] == e.1\n"
                        "                },\n"
                        "                forall|cx: int, cy: int| 0 <= cx < image.w() && 0 <= cy < image.h() ==>\n"
                        "                    #[trigger] image.at(cx, cy) == frame_px(self, cels_of(self.framedata.data[frame as int]@), it.index@ as int, cx, cy),")}},
@@ -1509,14 +1505,12 @@ RAWPIX_OK = ("match {src} {{\n"
              "            RawPixels::Indexed(data) => {dst} is Indexed && {dst}->Indexed_data@ == data@\n"
              "                && forall|i: int| 0 <= i < data@.len() ==> (*{dst}->Indexed_palette).entries@.contains_key(#[trigger] data@[i] as u32),\n"
              "        }}")
-CTX = ("self.data@.len() == self.num_frames as int, self.num_frames <= 65535, num_frames == self.num_frames, num_layers == layers.layers@.len(), num_layers < 0x1_0000_0000,\n"
-       "                forall|f: int| 0 <= f < self.data@.len() ==> (#[trigger] self.data@[f])@.len() <= 65536,\n")
+CTX = ("self.data@.len() == self.num_frames as int, self.num_frames <= 65535, num_frames == self.num_frames, num_layers == layers.layers@.len(), num_layers < 0x1_0000_0000,\n")
 VREF = ("                forall|id: CelId| (id.layer as int) < num_layers ==> #[trigger] validate_ref.requires((id,)),\n"
         "                forall|id: CelId, res: Result<()>| #[trigger] validate_ref.ensures((id,), res) ==> (res is Ok <==> ((id.frame as int) < num_frames && linkable(&self, id.frame as int, id.layer as int))),\n")
-ROWS_DONE = ("                forall|f: int| 0 <= f < {n} ==> (#[trigger] result.data@[f])@.len() == self.data@[f]@.len()\n"
-             "                    && row_ok(&self, self.data@[f]@, result.data@[f]@, self.data@[f]@.len() as int, layers, tilesets),\n")
+ROWS_DONE = ("                forall|f: int| 0 <= f < {n} ==> row_ok(&self, self.data@[f]@, (#[trigger] result.data@[f])@, layers, tilesets),\n")
 UNITS["validate"] = {
-    "prelude_sections": ["arch", "errors", "rgba_only", "intmap", "layer_flags", "validate_shims", "validate_spec"],
+    "prelude_sections": ["arch", "errors", "rgba_only", "intmap", "layer_flags", "validate_shims", "btreemap_shim", "validate_spec"],
     "items": [it for it in UNITS["pixels"]["items"]] + [
         {"kind": "struct", "file": "cel", "name": "CelId", "keep": None, "attrs": "#[derive(Clone, Copy)]\n"},
         {"kind": "struct", "file": "cel", "name": "CelCommon", "keep": None},
@@ -1561,7 +1555,7 @@ UNITS["validate"] = {
          "ensures": ("        r is Ok ==> cel_validated(self, r->Ok_0, cel_id.layer as int, layers, tilesets),\n"
                      "        // a link is accepted only if the callback accepts (linked frame, this cel's layer)\n"
                      "        r is Ok && self.content is Linked ==> validate_ref.ensures((CelId { frame: self.content->Linked_0, layer: cel_id.layer },), Ok(())),")},
-        {"kind": "struct", "file": "cel", "name": "CelsData", "keep": None},
+        {"kind": "struct", "file": "cel", "name": "CelsData", "keep": None, "attrs": "#[verifier::reject_recursive_types(P)]\n"},
         {"kind": "fn", "file": "cel", "name": "is_raw", "impl_of": "CelContent", "impl_filter": r"impl<P>\s+CelContent<P>", "impl_header": "<P> CelContent<P>", "ret": "r",
          "ensures": "        r == (self is Raw),"},
         {"kind": "fn", "file": "cel", "name": "cel", "key": "CelsData::cel", "impl_of": "CelsData", "impl_filter": r"impl<P>\s+CelsData<P>", "impl_header": "<P> CelsData<P>", "ret": "r",
@@ -1571,19 +1565,17 @@ UNITS["validate"] = {
         {"kind": "fn", "file": "cel", "name": "validate", "key": "CelsData::validate", "impl_of": "CelsData", "impl_filter": r"impl\s+CelsData<RawPixels>", "impl_header": "CelsData<RawPixels>", "ret": "r",
          "rules": ["R1", "R6", "R11"],
          "requires": ("        self.data@.len() == self.num_frames as int, self.num_frames <= 65535,\n"
-                      "        forall|f: int| 0 <= f < self.data@.len() ==> (#[trigger] self.data@[f])@.len() <= 65536,\n"
                       "        // ASSUMPTION: fewer than 2^32 layers (the index arithmetic of the link table is usize)\n"
                       "        layers.layers@.len() < 0x1_0000_0000,"),
          "ensures": ("        r is Ok ==> ({\n"
                      "            let o = r->Ok_0;\n"
                      "            &&& o.num_frames == self.num_frames\n"
                      "            &&& o.data@.len() == self.data@.len()\n"
-                     "            &&& forall|f: int| 0 <= f < self.data@.len() ==> (#[trigger] o.data@[f])@.len() == self.data@[f]@.len()\n"
-                     "                    && row_ok(&self, self.data@[f]@, o.data@[f]@, self.data@[f]@.len() as int, layers, tilesets)\n"
+                     "            &&& forall|f: int| 0 <= f < self.data@.len() ==> row_ok(&self, self.data@[f]@, (#[trigger] o.data@[f])@, layers, tilesets)\n"
                      "        }),"),
          "body_rewrites": [
              ("self.data.into_iter().enumerate()", "it3: vec_into_iter_enumerate(self.data)"),
-             ("cels_by_layer.into_iter().enumerate()", "it4: vec_into_iter_enumerate(cels_by_layer)"),
+             ("cels_by_layer.into_iter()", "it4: cels_by_layer.into_iter()"),
              ("for frame in 0..num_frames {", "for frame in it1: 0..num_frames {"),
              ("for layer in 0..num_layers {", "for layer in it2: 0..num_layers {"),
          ],
@@ -1621,12 +1613,10 @@ UNITS["validate"] = {
                  "                result.data@.len() == it3.index@,\n" + ROWS_DONE.format(n="it3.index@")),
              4: ("                invariant\n                " + CTX + VREF +
                  "                (frame as int) < self.data@.len(),\n"
-                 "                it4.snapshot@.remaining().len() == self.data@[frame as int]@.len(),\n"
-                 "                forall|i: int| 0 <= i < self.data@[frame as int]@.len() ==> #[trigger] it4.snapshot@.remaining()[i] == (i as usize, self.data@[frame as int]@[i]),\n"
+                 "                lists_sorted(it4.snapshot@.remaining(), self.data@[frame as int]@),\n"
                  "                result.num_frames == self.num_frames,\n"
                  "                result.data@.len() == frame as int + 1,\n"
-                 "                result.data@[frame as int]@.len() == it4.index@,\n"
-                 "                row_ok(&self, self.data@[frame as int]@, result.data@[frame as int]@, it4.index@ as int, layers, tilesets),\n" + ROWS_DONE.format(n="frame as int")),
+                 "                row_part(&self, it4.snapshot@.remaining(), it4.index@ as int, result.data@[frame as int]@, layers, tilesets),\n" + ROWS_DONE.format(n="frame as int")),
          },
          "loop_ends": {
              1: "            proof { assert((frame as int) * (num_layers as int) + (num_layers as int) == (frame as int + 1) * (num_layers as int)) by (nonlinear_arith); }",
@@ -1663,16 +1653,14 @@ impl TilesetsById<RawPixels> {
         {"kind": "struct", "file": "parse", "name": "ValidatedParseInfo", "keep": None,
          "rewrites": [("layer::LayersData", "LayersData"), ("cel::CelsData<Pixels>", "CelsData<Pixels>"), ("Arc<palette::ColorPalette>", "Arc<ColorPalette>")]},
         {"kind": "fn", "file": "parse", "name": "validate", "key": "ParseInfo::validate", "impl_of": "ParseInfo", "ret": "r", "rules": ["R1", "R6", "R11"],
-         "requires": ("        self.framedata.data@.len() == self.framedata.num_frames as int, self.framedata.num_frames <= 65535,\n"
-                      "        forall|f: int| 0 <= f < self.framedata.data@.len() ==> (#[trigger] self.framedata.data@[f])@.len() <= 65536,"),
+         "requires": "        self.framedata.data@.len() == self.framedata.num_frames as int, self.framedata.num_frames <= 65535,",
          "ensures": ("        // C05: what a successful load establishes for every accessor (the renderer's R-pre)\n"
                      "        r is Ok ==> ({ let v = r->Ok_0;\n"
                      "            &&& v.layers.layers@ == self.layers@ && v.layers.layers@.len() <= 65536\n"
                      "            &&& forall|k: u32| v.tilesets.map().dom().contains(k) ==> (#[trigger] v.tilesets.map()[k]).pixels is Some\n"
                      "            &&& forall|i: int| 0 <= i < v.layers.layers@.len() ==> (v.layers.layers@[i].layer_type is Tilemap ==> v.tilesets.map().dom().contains(#[trigger] v.layers.layers@[i].layer_type->Tilemap_0))\n"
                      "            &&& v.framedata.num_frames == self.framedata.num_frames && v.framedata.data@.len() == self.framedata.data@.len()\n"
-                     "            &&& forall|f: int| 0 <= f < self.framedata.data@.len() ==> (#[trigger] v.framedata.data@[f])@.len() == self.framedata.data@[f]@.len()\n"
-                     "                    && row_ok(&self.framedata, self.framedata.data@[f]@, v.framedata.data@[f]@, self.framedata.data@[f]@.len() as int, &v.layers, &v.tilesets)\n"
+                     "            &&& forall|f: int| 0 <= f < self.framedata.data@.len() ==> row_ok(&self.framedata, self.framedata.data@[f]@, (#[trigger] v.framedata.data@[f])@, &v.layers, &v.tilesets)\n"
                      "            &&& v.frame_times == self.frame_times && v.sprite_user_data == self.sprite_user_data && v.slices == self.slices && v.palette == self.palette\n"
                      "        }),")},
     ],
@@ -1738,7 +1726,7 @@ LD = "self.file.layers.layers[self.layer_id as int]"
 CEL_OK = "(self.cel_id.frame as int) < self.file.framedata.data.len(),"
 CAT = "self.file.framedata.at(self.cel_id.frame as int, self.cel_id.layer as int)"
 UNITS["accessors"] = {
-    "prelude_sections": ["rgba_only", "layer_flags_only", "option_extra"],
+    "prelude_sections": ["rgba_only", "layer_flags_only", "option_extra", "btreemap_shim"],
     "items": [
         {"kind": "struct", "file": "user_data", "name": "UserData", "keep": None, "rewrites": [("image::Rgba<u8>", "Rgba<u8>")]},
         {"kind": "enum", "file": "file", "name": "PixelFormat", "attrs": "#[derive(Clone, Copy)]\n"},
@@ -1763,7 +1751,7 @@ UNITS["accessors"] = {
         {"kind": "verbatim", "text": """
 impl CelsData {
     pub open spec fn at(&self, f: int, l: int) -> Option<RawCel> {
-        if 0 <= f < self.data.len() && 0 <= l < self.data[f].len() { self.data[f][l] } else { None }
+        if 0 <= f < self.data.len() && 0 <= l <= 65535 && self.data[f]@.contains_key(l as u16) { Some(self.data[f]@[l as u16]) } else { None }
     }
 }
 """},
